@@ -359,7 +359,7 @@ pub fn flex_layout(
     mut layout: ViewMutLayout<'_>,
 ) -> Result<(), Error> {
     let mut flex_total = 0.0;
-    let mut major_non_flex = 0;
+    let mut major_non_flex = 0usize;
     let mut minor = direction.minor(ct.min());
     let ct_loosen = ct.loosen();
 
@@ -369,7 +369,7 @@ pub fn flex_layout(
         match child.flex {
             None => {
                 child.view.layout(ctx, ct_loosen, child_layout.view_mut())?;
-                major_non_flex += direction.major(child_layout.size());
+                major_non_flex = major_non_flex.saturating_add(direction.major(child_layout.size()));
                 minor = max(minor, direction.minor(child_layout.size()));
             }
             Some(flex) => flex_total += flex,
@@ -378,7 +378,7 @@ pub fn flex_layout(
 
     // layout flex
     let mut major_remain = direction.major(ct.max()).saturating_sub(major_non_flex);
-    let mut major_flex = 0;
+    let mut major_flex = 0usize;
     if major_remain > 0 && flex_total > 0.0 {
         let mut child_layout_opt = layout.child_mut();
         for child in children.iter() {
@@ -398,7 +398,7 @@ pub fn flex_layout(
 
                     // update counters
                     major_remain = major_remain.saturating_sub(child_major);
-                    major_flex += child_major;
+                    major_flex = major_flex.saturating_add(child_major);
                     minor = max(minor, child_minor);
                 }
             }
@@ -409,7 +409,7 @@ pub fn flex_layout(
     // unused space to be filled
     let unused = direction
         .major(ct.max())
-        .saturating_sub(major_non_flex + major_flex);
+        .saturating_sub(major_non_flex.saturating_add(major_flex));
     let (space_side, space_between) = if unused > 0 {
         match justify {
             Justify::Start => (0, 0),
@@ -449,8 +449,8 @@ pub fn flex_layout(
                 child.align.align(direction.minor(child_size), minor),
             ));
 
-            major_offset += child_size.major(direction);
-            major_offset += space_between;
+            major_offset = major_offset.saturating_add(child_size.major(direction));
+            major_offset = major_offset.saturating_add(space_between);
 
             child_layout_opt = child_layout.sibling();
         }
